@@ -7,6 +7,7 @@ import FxpVerif.Props.C19
 import FxpVerif.Props.C18
 import FxpVerif.Props.C14
 import FxpVerif.Props.C20
+import FxpVerif.Props.C03
 /-!
 # Source tie: the definitions generated from `fxpmath/functions.py` are the rules the theorems speak about
 
@@ -184,6 +185,32 @@ theorem valid_rounding (s : String) : Gen.valid_rounding s = C20.validRounding s
 theorem valid_overflow (s : String) : Gen.valid_overflow s = C20.validOverflow s := by
   unfold Gen.valid_overflow C20.validOverflow
   simp only [List.mem_cons, List.mem_nil_iff, or_false, List.elem_eq_mem, decide_eq_decide]
+
+
+/-! ## Elementwise kernels of `fxpmath/utils.py` -/
+
+/-- `utils.wrap` as written (mask with `&`, sign-extend with `|`) is the model's `wrap` — for every word length and every integer. -/
+theorem wrap_elem (f : Fmt) (k : Int) : Gen.wrapElem f.signed f.nword k = wrap f k := by
+  rw [← C03.wrapBits_eq_wrap]
+  unfold Gen.wrapElem C03.wrapBits
+  first
+  | (simp [toNat_pred]; done)
+  | (cases f.signed <;> simp [toNat_pred])
+
+/-- `utils.clip` is the model's `sat` (`max(val_min, min(val_max, x))`) when called with the format's limits. -/
+theorem clip_elem (f : Fmt) (k : Int) : Gen.clipElem k f.lo f.hi = sat f k := by
+  unfold Gen.clipElem sat
+  first
+  | rfl
+  | (simp; done)
+  | omega
+
+theorem int_clip_elem (f : Fmt) (k : Int) : Gen.intClipElem k f.lo f.hi = sat f k := by
+  unfold Gen.intClipElem sat
+  first
+  | rfl
+  | (simp; done)
+  | omega
 
 
 /-! ## The property theorems, restated about the generated rules
